@@ -3,3 +3,4 @@ pub mod exec;
 pub mod prog;
 pub mod report;
 pub mod runner;
+pub mod globmodel;
